@@ -1055,7 +1055,11 @@ func rconGenSession(seed int64, id int) rconBeh {
 		if rng.Intn(100) < 25 {
 			lty = rconRandTy(rng, 2)
 		}
-		add(rconStep{Op: "inject", D: "c2s", W: ints(rconFrame(rconRandID(rng), lty, bytesOf(pw)))})
+		lid := rconRandID(rng)
+		if rng.Intn(4) == 0 {
+			lid = -1 // the id the server uses to SAY "refused": a client may send it all the same, with a right or wrong password
+		}
+		add(rconStep{Op: "inject", D: "c2s", W: ints(rconFrame(lid, lty, bytesOf(pw)))})
 		add(rconStep{Op: "slogin"})
 		if lty == 3 {
 			add(rconStep{Op: "take", D: "s2c"})
